@@ -458,7 +458,7 @@ func (h *harness) runTx(later map[string]*[]index, allowDDL bool) {
 	for i := 0; i < n && !aborted; i++ {
 		t := work.tables[rapid.IntRange(0, len(work.tables)-1).Draw(rt, "table")]
 		var s *stmt
-		if allowDDL && form != "oneshot" && chance(rt, "ddlInTx", map[string]int{"auto": 14, "interactive": 6, "newtx": 6}[form]) {
+		if allowDDL && form != "oneshot" && chance(rt, "ddlInTx", map[string]int{"auto": 14, "interactive": 10, "newtx": 10}[form]) {
 			s = h.genDDL(rt, t, later[t.name], form != "auto")
 		} else {
 			s = h.genDML(rt, t, opts)
@@ -653,7 +653,14 @@ func (h *harness) runTx(later map[string]*[]index, allowDDL bool) {
 		if aborted {
 			break
 		}
-		if chance(rt, "rollback", 12) {
+		rollbackPct := 12
+		for _, st := range stmts {
+			if st.kind == kDropCheck {
+				rollbackPct = 50 // a dropped constraint must come back with the rollback
+				h.c.Label("drop-constraint-in-transaction")
+			}
+		}
+		if chance(rt, "rollback", rollbackPct) {
 			commit = false
 			_, _, err := h.exec(tx, "ROLLBACK", nil)
 			h.logf("ROLLBACK -> %s", short(err))
